@@ -1,6 +1,4 @@
 import WhatwgUrl.Proofs.Heap
-import WhatwgUrl.Generated.Facts
-import WhatwgUrl.Props.C14
 /-
   C13 — clones and resolution results share no state with their source.
   Property theorems only; the primitives' characterisation lemmas live in Proofs/Heap.lean.
@@ -277,25 +275,5 @@ theorem C13_setter_frame_Statement_false : ¬ C13_setter_frame_Statement := by
   have h2 : (obsAll exBad 1).map (fun p => p.2.isSome) = some false := by decide +kernel
   rw [heq, h2] at h1
   cases h1
-
-/-! ### facts regenerated from the Go source (T1) -/
-
-/-- from the typed mod/ref summary (`harness/modref.go`): `BasicParser` never stores to its base parameter, stores no
-    reference reachable from it into the url under construction, and returns a new object or its third parameter; the
-    entry points return new objects and store to nothing -/
-theorem C13_base_never_modified_or_shared : ∀ e ∈ C14.allMR,
-    (e.name = "parser.BasicParser" → "param1" ∉ e.writes ∧ e.aliases = [] ∧ e.returns = ["fresh", "param2"]) ∧
-    (e.name ∈ ["Url.Parse", "parser.Parse", "parser.ParseRef", "Parse", "ParseRef"] → e.writes = [] ∧ e.returns = ["fresh"]) := by decide +kernel
-
-/-- `Clone` stores to nothing and returns a new object none of whose fields leads back into the original, except — as far
-    as the flow-insensitive analysis can tell — through `searchParams` (the list's back pointer is first copied, then
-    re-targeted to the clone; that the final heap is separated is `C13_clone_separated`, on the model). A shallow copy of
-    the path or of a string pointer (`path: u.path`) would add `fresh.path>recv` here. -/
-theorem C13_clone_is_deep : ∀ e ∈ C14.allMR,
-    (e.name = "Url.Clone" → e.writes = [] ∧ ∀ r ∈ e.returns, r = "fresh" ∨ r = "fresh.searchParams>recv") ∧
-    (e.name = "SearchParams.Clone" → e.writes = [] ∧ ∀ r ∈ e.returns, r = "fresh" ∨ r = "fresh.url>recv") := by decide +kernel
-
-theorem C13_summary_covers : "Url.Clone" ∈ C14.allMR.map C14.MR.name ∧ "SearchParams.Clone" ∈ C14.allMR.map C14.MR.name ∧
-    "parser.BasicParser" ∈ C14.allMR.map C14.MR.name := by decide +kernel
 
 end WhatwgUrl.Props.C13
